@@ -224,6 +224,16 @@ func VerifH_C06_reload() {
 		resp = verifGet(m, "video1_stream.m3u8?"+q)
 		doneFlag.Store(true)
 	}()
+	// further identical requesters ("any number of concurrent requesters"): all must be released together
+	nExtra := verifParam("WAITERS", 1) - 1
+	extraDone := make([]atomic.Bool, nExtra)
+	for i := 0; i < nExtra; i++ {
+		i := i
+		go func() {
+			verifGet(m, "video1_stream.m3u8?"+q)
+			extraDone[i].Store(true)
+		}()
+	}
 	verifQuiesce()
 	done := doneFlag.Load()
 	// the answer rules are evaluated against the state at the time of the request
@@ -241,6 +251,9 @@ func VerifH_C06_reload() {
 		cur := verifLLState(m, "video1")
 		if done {
 			verifReach("answered")
+			for i := range extraDone {
+				verifAssert("C06", "every-waiter-of-the-same-part-is-released", extraDone[i].Load())
+			}
 			verifAssert("C06", "mutex-free-after-request", !verifHeld(&m.mutex))
 			if resp.code == 200 {
 				verifAssert("C06", "200-only-for-satisfiable-requests", !reject)
